@@ -154,7 +154,7 @@ func H_C12_step() {
 		}
 		i := verif.Choose("pre-count-key", len(ckeys))
 		c := verif.Uint64("pre-count-value")
-		verif.Assume(c > 0 && c < 18446744073709551615)
+		verif.Assume(c > 0) // (up to and including the largest value: a saturated counter must not disturb the totals)
 		cpre[i] = c
 		must(d.SetDispatchedCounts(ctx, &ckeys[i].src, &ckeys[i].dst, c))
 	}
@@ -204,6 +204,12 @@ func H_C12_step() {
 		got := d.GetDispatchedCounts(ctx, &k.src, &k.dst).Count
 		want := cpre[i]
 		if i == 0 {
+			if want == 18446744073709551615 {
+				// 2^64-1 transfers on one route: the counter cannot go further (the code logs the overflow and goes on);
+				// nothing is asserted about it, the totals above must still be right
+				verif.Cover("count-saturated")
+				continue
+			}
 			want++
 			verif.Assert(got == want, "count-increases-by-one")
 		} else {
